@@ -12,7 +12,7 @@
 use super::*;
 use crate::dir_entry::verif::{editor, editor_state, entry_raw_times, entry_size_cluster, file_entry};
 use crate::fs::verif::{fs_pending, mk_fs_plain, Fs, Geo};
-use crate::fs::FatType;
+use crate::fs::{FatType, ReadWriteSeek};
 use crate::time::{Date, DateTime, Time};
 use crate::verif_support::dev::{WinDev, FATW};
 use crate::verif_support::spec;
@@ -87,7 +87,7 @@ fn any_offset(k: usize, size: u32) -> u32 {
     off
 }
 
-fn mk_file<'a, TP>(fs: &'a Fs<WinDev, TP>, m: usize, k: usize, size: u32, offset: u32) -> File<'a, WinDev, TP, crate::fs::LossyOemCpConverter> {
+fn mk_file<'a, D: ReadWriteSeek, TP>(fs: &'a Fs<D, TP>, m: usize, k: usize, size: u32, offset: u32) -> File<'a, D, TP, crate::fs::LossyOemCpConverter> {
     let first = if m == 0 { None } else { Some(CHAIN[0]) };
     File {
         first_cluster: first,
@@ -139,8 +139,8 @@ fn read_check(ft: FatType, m: usize, k: usize, update_accessed: bool) {
     if n > 0 {
         let dev_off = g.cluster_off(CHAIN[(off / CS) as usize]) + (off % CS) as u64;
         if wa >= dev_off && wa - dev_off < n as u64 { assert!(buf[(wa - dev_off) as usize] == wv); }
-        kani::cover!(wa >= dev_off && wa - dev_off < n as u64);
     }
+    kani::cover!(m == 0 || (n > 0 && wa >= g.cluster_off(CHAIN[(off / CS) as usize]) + (off % CS) as u64));
     let d = fs.disk.borrow();
     assert!(!d.oob);
     // C13: a read never writes to the storage and leaves nothing pending unless access-date updating is on
@@ -507,9 +507,7 @@ use crate::verif_support::dev::FAULT;
 fn fault_file_check(ft: FatType, op: u8) {
     let fault_at: u32 = kani::any();
     let g = geo(ft);
-    let mut dev = mk_dev(ft, 3);
-    dev.fault_at = fault_at;
-    dev.budget = 120;
+    let dev = crate::verif_support::dev::Faulty::new(mk_dev(ft, 3), fault_at, 120);
     let fs = core::mem::ManuallyDrop::new(mk_fs_plain(dev, &g, any_clock(), false));
     // concrete state per operation: size 1536 (three full clusters) unless noted
     let (k, off) = match op { 0 => (0usize, 512u32), 1 => (2, 1536), 2 => (1, 700), 3 => (usize::MAX, 0), 4 => (0, 300), 5 => (usize::MAX, 0), _ => (usize::MAX, 0) };
@@ -541,7 +539,7 @@ fn fault_file_check(ft: FatType, op: u8) {
         }
     };
     let d = fs.disk.borrow();
-    assert!(!d.oob);
+    assert!(!d.inner.oob);
     if d.fired { assert!(fault); } else { assert!(ok); }
     kani::cover!(d.fired && fault_at >= 1);
     kani::cover!(!d.fired);
